@@ -452,23 +452,25 @@ pub struct Profile {
     pub w_bad: u64,
     pub max_write: usize,
     pub big_writes: bool,
+    /// route a third of the file / directory / volume calls through the RAII wrappers and the embedded-io traits
+    pub wrap: bool,
 }
 
 impl Profile {
     pub fn general() -> Profile {
-        Profile { w_open_file: 10, w_read: 10, w_write: 12, w_seek: 8, w_flush: 3, w_close_file: 6, w_delete: 3, w_mkdir: 3, w_open_dir: 4, w_close_dir: 2, w_list: 3, w_find: 3, w_query: 4, w_volume: 1, w_bad: 2, max_write: 3000, big_writes: false }
+        Profile { w_open_file: 10, w_read: 10, w_write: 12, w_seek: 8, w_flush: 3, w_close_file: 6, w_delete: 3, w_mkdir: 3, w_open_dir: 4, w_close_dir: 2, w_list: 3, w_find: 3, w_query: 4, w_volume: 1, w_bad: 2, max_write: 3000, big_writes: false, wrap: false }
     }
     pub fn rw() -> Profile {
-        Profile { w_open_file: 8, w_read: 16, w_write: 16, w_seek: 14, w_flush: 2, w_close_file: 4, w_delete: 1, w_mkdir: 0, w_open_dir: 1, w_close_dir: 0, w_list: 0, w_find: 0, w_query: 6, w_volume: 1, w_bad: 1, max_write: 5000, big_writes: false }
+        Profile { w_open_file: 8, w_read: 16, w_write: 16, w_seek: 14, w_flush: 2, w_close_file: 4, w_delete: 1, w_mkdir: 0, w_open_dir: 1, w_close_dir: 0, w_list: 0, w_find: 0, w_query: 6, w_volume: 1, w_bad: 1, max_write: 5000, big_writes: false, wrap: false }
     }
     pub fn namespace() -> Profile {
-        Profile { w_open_file: 10, w_read: 2, w_write: 6, w_seek: 1, w_flush: 2, w_close_file: 8, w_delete: 8, w_mkdir: 8, w_open_dir: 6, w_close_dir: 4, w_list: 6, w_find: 6, w_query: 1, w_volume: 1, w_bad: 3, max_write: 1500, big_writes: false }
+        Profile { w_open_file: 10, w_read: 2, w_write: 6, w_seek: 1, w_flush: 2, w_close_file: 8, w_delete: 8, w_mkdir: 8, w_open_dir: 6, w_close_dir: 4, w_list: 6, w_find: 6, w_query: 1, w_volume: 1, w_bad: 3, max_write: 1500, big_writes: false, wrap: false }
     }
     pub fn space() -> Profile {
-        Profile { w_open_file: 10, w_read: 2, w_write: 16, w_seek: 2, w_flush: 2, w_close_file: 8, w_delete: 8, w_mkdir: 4, w_open_dir: 2, w_close_dir: 1, w_list: 1, w_find: 1, w_query: 2, w_volume: 1, w_bad: 1, max_write: 6000, big_writes: true }
+        Profile { w_open_file: 10, w_read: 2, w_write: 16, w_seek: 2, w_flush: 2, w_close_file: 8, w_delete: 8, w_mkdir: 4, w_open_dir: 2, w_close_dir: 1, w_list: 1, w_find: 1, w_query: 2, w_volume: 1, w_bad: 1, max_write: 6000, big_writes: true, wrap: false }
     }
     pub fn handles() -> Profile {
-        Profile { w_open_file: 12, w_read: 1, w_write: 1, w_seek: 1, w_flush: 1, w_close_file: 10, w_delete: 1, w_mkdir: 1, w_open_dir: 12, w_close_dir: 10, w_list: 1, w_find: 1, w_query: 4, w_volume: 8, w_bad: 8, max_write: 600, big_writes: false }
+        Profile { w_open_file: 12, w_read: 1, w_write: 1, w_seek: 1, w_flush: 1, w_close_file: 10, w_delete: 1, w_mkdir: 1, w_open_dir: 12, w_close_dir: 10, w_list: 1, w_find: 1, w_query: 4, w_volume: 8, w_bad: 8, max_write: 600, big_writes: false, wrap: false }
     }
 }
 
